@@ -41,6 +41,9 @@ def main(argv):
         with open(argv[1]) as f:
             rec = json.load(f)
         mod = importlib.import_module("mc.checks.%s" % rec["property"])
+        if isinstance(rec["payload"], dict) and rec["payload"].get("prelude"):
+            from mc import run as runmod
+            runmod.prelude(rec["payload"])
         vs = mod.replay(rec["payload"])
         sigs = {(v["clause"], v["cause"]) for v in vs}
         for v in vs:
